@@ -151,4 +151,20 @@ def colEq {A : Type} [DecidableEq A] (a b : TableColumn A) : Bool :=
   decide (a.name = b.name) && decide (a.is_primary_key = b.is_primary_key) && decide (a.type = b.type) &&
     decide (a.default = b.default) && decide (a.length = b.length)
 
+/-! ## list-lifted equality
+
+`list.__eq__` (used by `PlanStep.__eq__` for list-valued attributes such as `MultipleSteps.steps`,
+`ProjectStep.columns`, and — via the explicit length check and the `zip` loop — by `QueryPlan.__eq__`):
+lists are equal iff they have the same length and are element-wise equal. -/
+def eqList {α : Type} (eq : α → α → Bool) : List α → List α → Bool
+  | [], [] => true
+  | a :: as, b :: bs => eq a b && eqList eq as bs
+  | _, _ => false
+
+/-- the `zip`-only comparison (`all(s == t for s, t in zip(a, b))`, no length check): what a
+"simplified" `QueryPlan.__eq__` computes — not an equality (see `C18_witness_8`) -/
+def eqZip {α : Type} (eq : α → α → Bool) : List α → List α → Bool
+  | a :: as, b :: bs => eq a b && eqZip eq as bs
+  | _, _ => true
+
 end MindsVerif.PyEq
